@@ -1,5 +1,6 @@
 """Correspondence runs for the accessor properties C15, C16, C17."""
 import itertools
+import os
 import random
 from datetime import datetime, timedelta
 
@@ -88,12 +89,31 @@ def held_mismatch(held, ro):
     return None
 
 
+_OTHER = {}
+
+
+def _other_ro():
+    """Another running order alive in the same process (a programme has many): listing ITS stories between listing and
+    reading the stories of the one under observation must change nothing."""
+    from . import impl
+    if os.getpid() not in _OTHER:
+        _OTHER.clear()
+        _OTHER[os.getpid()] = impl.load(TJ.to_text(B.ro_doc(
+            [B.story('O1', [B.item('o1')], md=B.timing_md(duration='7')), B.story('O2', [], md=B.timing_md(text_time='11', media_time='2')),
+             B.story('O3', [B.p('other')], md=B.timing_md(duration='13'))], message_id='77', ro_id='OTHER', ed_start='2019-01-01T00:00:00')))
+    return _OTHER[os.getpid()]
+
+
 def _read_all(ro):
     v = {'ro_slug': ro.ro_slug}
     # accessors are read in no particular order by callers: the end time and the duration first, then the listing -
     # what they answer must not depend on what was read (or merged) before
     early = (ticks(ro.end_time), eighths(ro.duration))
     stories = ro.stories
+    try:
+        [(o_.offset, o_.start_time) for o_ in _other_ro().stories]
+    except Exception:  # noqa: BLE001 - the other running order is not the one under observation
+        pass
     sv = []
     for s in stories:
         sv.append({'id': s.id, 'slug': s.slug, 'duration': eighths(s.duration), 'offset': eighths(s.offset),
